@@ -26,6 +26,7 @@ type dbOpts struct {
 	ReadBuf     uint64  `json:"read_buf"`
 	Compactions bool    `json:"compactions"`
 	Async       bool    `json:"async,omitempty"`
+	DirectIOWAL bool    `json:"direct_io_wal,omitempty"` // only together with Async (WriteSync is unsupported with direct I/O by design)
 }
 
 func (o dbOpts) options() []simpledb.ExtraOption {
@@ -43,6 +44,9 @@ func (o dbOpts) options() []simpledb.ExtraOption {
 	}
 	if o.Async {
 		opts = append(opts, simpledb.EnableAsyncWAL())
+		if o.DirectIOWAL {
+			opts = append(opts, simpledb.EnableDirectIOWAL())
+		}
 	}
 	return opts
 }
